@@ -98,6 +98,7 @@ DevSide(e, a, b, m) ==
     \* a finite ratio whenever the arrays differ; the peak scaled by 10^hik moves it by exactly 20 hik dB
     /\ sq > 0 => /\ ~Special(m.psnr) /\ ~Special(m.psnr_hi)
                  /\ Abs(m.psnr_hi - m.psnr - 20 * e.hik * q) <= 2 * e.tol
+                 /\ ~Special(m.psnr_neg) /\ Abs(m.psnr_neg - m.psnr) <= e.tol          \* maxv enters through its square: -maxv gives the same ratio
 DevOK(e) ==
     /\ DevSide(e, e.a, e.b, e.fwd)
     /\ DevSide(e, e.b, e.a, e.swp)
@@ -108,7 +109,7 @@ DevOK(e) ==
 
 (* NaN (code 99) is equal to nothing, itself included - whatever the operands' memory relation *)
 NanC == 99
-CountEqNan(a, b) == Cardinality({x \in DOMAIN a : a[x] = b[x] /\ a[x] # NanC})
+CountEqNan(a, b) == Cardinality({x \in DOMAIN a : a[x] = b[x] /\ a[x] # NanC})     \* (98 = +inf equals itself)
 DevNanOK(e) ==
     /\ e.eq_ab = CountEqNan(e.a, e.b) /\ e.eq_ba = e.eq_ab /\ e.eq_ab + e.neq_ab = Len(e.a)
     /\ e.eq_alias = CountEqNan(e.a, e.a) /\ e.eq_copy = e.eq_alias /\ e.eq_alias + e.neq_alias = Len(e.a)
@@ -116,7 +117,11 @@ DevNanOK(e) ==
     \* difference has the same effect at every position; without NaN they are the exact values (quarter units)
     /\ \A x \in DOMAIN e.linf : e.linf[x] = e.linf[1] /\ e.linf[x] # ERRQ
     /\ \A x \in DOMAIN e.l1 : e.l1[x] = e.l1[1] /\ e.l1[x] # ERRQ
-    /\ (\A x \in DOMAIN e.a : e.a[x] # NanC /\ e.b[x] # NanC) => (e.linf[1] = Linf(e.a, e.b) /\ e.l1[1] = L1(e.a, e.b))
+    /\ \A x \in DOMAIN e.sq : e.sq[x] = e.sq[1] /\ e.sq[x] # ERRQ
+    \* one infinite difference (code 98 on one side only) and no NaN pair: every sum and the maximum are +inf
+    /\ ((\E x \in DOMAIN e.a : e.a[x] = 98) /\ \A x \in DOMAIN e.a : e.a[x] # NanC /\ e.b[x] # NanC) =>
+           (e.l1[1] = BIGQ /\ e.sq[1] = BIGQ /\ e.linf[1] = BIGQ)
+    /\ (\A x \in DOMAIN e.a : e.a[x] \notin {NanC, 98} /\ e.b[x] # NanC) => (e.linf[1] = Linf(e.a, e.b) /\ e.l1[1] = L1(e.a, e.b))
 
 (* ---- C10 ---- *)
 NanCode == -1
